@@ -270,6 +270,11 @@ func (r *schedRunner) decision(f func() string) string {
 	out := f()
 	if !r.cronMode && !r.clearOfNextFiring(live, cancelMargin) {
 		r.invalid = true
+		// the decision itself took so long that a firing may have slipped in between the check and
+		// the read: a plain count list is not determined (flags such as `early` stay)
+		if strings.HasPrefix(out, "[") && strings.HasSuffix(out, "]") && len(live) > 0 {
+			return "-"
+		}
 	}
 	return out
 }
